@@ -1,0 +1,143 @@
+//go:build verif
+
+package router
+
+// Thin exported wrappers around unexported functions for the verification
+// harness in /verif. No logic of their own. Only built with -tags verif.
+
+import (
+	"context"
+	"crypto/tls"
+	"io"
+	"net/netip"
+	"time"
+
+	"github.com/IrineSistiana/mosproxy/internal/dnsmsg"
+	"github.com/IrineSistiana/mosproxy/internal/upstream"
+	"github.com/panjf2000/gnet/v2"
+)
+
+const VerifUdpSize = udpSize
+
+type VerifRouter struct{ r *router }
+
+func VerifRun(cfg *Config) (*VerifRouter, error) {
+	r, err := run(context.Background(), cfg)
+	if err != nil {
+		return nil, err
+	}
+	return &VerifRouter{r: r}, nil
+}
+
+func (v *VerifRouter) Close() { v.r.close(nil) }
+
+func (v *VerifRouter) FatalErr() error {
+	select {
+	case fe := <-v.r.fatalErr:
+		return fe.err
+	default:
+		return nil
+	}
+}
+
+// SetUpstream replaces the transport of an already configured upstream tag.
+func (v *VerifRouter) SetUpstream(tag string, u upstream.Upstream) bool {
+	w := v.r.upstreams[tag]
+	if w == nil {
+		return false
+	}
+	w.u = u
+	return true
+}
+
+// Handle runs handleServerReq. The caller owns the returned response.
+func (v *VerifRouter) Handle(m *dnsmsg.Msg, remote, local netip.AddrPort) (resp *dnsmsg.Msg, ruleIdx int, cached bool, ipMark string) {
+	rc := getRequestContext()
+	rc.RemoteAddr = remote
+	rc.LocalAddr = local
+	v.r.handleServerReq(m, rc)
+	resp, ruleIdx, cached, ipMark = rc.Response.Msg, rc.Response.RuleIdx, rc.Response.Cached, rc.Response.IpMark
+	rc.Response.Msg = nil
+	releaseRequestContext(rc)
+	return
+}
+
+func (v *VerifRouter) PackReq(q *dnsmsg.Question, remote netip.Addr) ([]byte, error) {
+	return v.r.packReq(q, remote)
+}
+
+func (v *VerifRouter) CacheStore(q *dnsmsg.Question, client netip.Addr, resp *dnsmsg.Msg) {
+	v.r.cache.Store(q, client, resp)
+}
+
+func (v *VerifRouter) CacheGet(q *dnsmsg.Question, remote netip.AddrPort) (*dnsmsg.Msg, time.Time, time.Time) {
+	rc := getRequestContext()
+	defer releaseRequestContext(rc)
+	rc.RemoteAddr = remote
+	return v.r.cache.Get(context.Background(), q, rc)
+}
+
+func (v *VerifRouter) IpMark(addr netip.Addr) string { return v.r.cache.ipMark(addr) }
+
+func (v *VerifRouter) KeyForPrefetch(q *dnsmsg.Question, remote netip.Addr) uint64 {
+	return v.r.cache.keyForPrefetch(q, remote)
+}
+
+func (v *VerifRouter) PrefetchReserve(key uint64) bool { return v.r.prefetch.reserve(key) }
+func (v *VerifRouter) PrefetchDone(key uint64)         { v.r.prefetch.done(key) }
+
+func (v *VerifRouter) LimiterAllowN(addr netip.Addr, n int) error { return v.r.limiterAllowN(addr, n) }
+
+// NewGnetHandler returns the gnet event handler of the gnet listener without starting an engine.
+func (v *VerifRouter) NewGnetHandler(maxConcurrent int32, idleTimeout time.Duration) gnet.EventHandler {
+	return &gnetServer{
+		r:             v.r,
+		logger:        v.r.subLoggerForServer("server_gnet", "verif"),
+		engineReady:   make(chan struct{}),
+		idleTimeout:   idleTimeout,
+		maxConcurrent: maxConcurrent,
+	}
+}
+
+func VerifMustHaveRespB(query, resp *dnsmsg.Msg, errRcode dnsmsg.RCode, tcp bool, size int) []byte {
+	return mustHaveRespB(query, resp, errRcode, tcp, size)
+}
+
+func VerifPackResp(m *dnsmsg.Msg, compression bool, size int) ([]byte, error) {
+	return packResp(m, compression, size)
+}
+
+func VerifPackRespTCP(m *dnsmsg.Msg, compression bool) ([]byte, error) {
+	return packRespTCP(m, compression)
+}
+
+func VerifCacheKey(q *dnsmsg.Question, mark string) []byte { return cacheKey(q, mark) }
+
+func VerifPackCacheMsg(m *dnsmsg.Msg) ([]byte, error)   { return packCacheMsg(m) }
+func VerifUnpackCacheMsg(b []byte) (*dnsmsg.Msg, error) { return unpackCacheMsg(b) }
+
+func VerifNeedPrefetch(stored, expire time.Time) bool { return needPrefetch(stored, expire) }
+
+func VerifMakeECS(addr netip.Addr) []byte { return makeEdns0ClientSubnetReqOpt(addr) }
+
+func VerifMakeTlsConfig(cfg *TlsConfig, requireCert bool) (*tls.Config, error) {
+	return makeTlsConfig(cfg, requireCert)
+}
+
+func VerifGetDnsKey(rawQuery string) string { return getDnsKey(rawQuery) }
+
+type VerifIpMarker struct{ m *ipMarker }
+
+func VerifLoadIpMarker(r io.Reader) (*VerifIpMarker, error) {
+	m, err := loadIpMarkerFromReader(r)
+	if err != nil {
+		return nil, err
+	}
+	return &VerifIpMarker{m: m}, nil
+}
+
+func (m *VerifIpMarker) Mark(addr netip.Addr) string { return m.m.Mark(addr) }
+
+func VerifMakeEmptyRespM(m *dnsmsg.Msg, rcode dnsmsg.RCode) *dnsmsg.Msg {
+	return makeEmptyRespM(m, rcode)
+}
